@@ -86,6 +86,8 @@ def check_reader(ctx, F, A):
             else:
                 kinds.add("source-error")
         ctx.oblig(ok)
+        if len(ctx.samples) < 4:
+            ctx.sample({"driver": "DecoderReader::read", "path_calls": seq, "returns": var, "faithful": ok})
         if not ok:
             viol(ctx, b, why[:40], "DecoderReader::read: " + why + " (calls %r)" % seq)
     if kinds != {"byte", "source-error"}:
